@@ -71,14 +71,18 @@ SameKind(X, Y) == X.kind = Y.kind
 \* (val.kind = "raised" when that phase raised, with val.shape = <<>>, val.data = <<>>)
 PhasesVerdict(obs) ==
   LET bad == {j \in 1..Len(obs.phases) : obs.phases[j].val.kind = "raised"}
-      wrong == {j \in 1..Len(obs.phases) \ bad : ~SameValue(obs.phases[j].val, obs.expect)}
-      wkind == {j \in 1..Len(obs.phases) \ bad : ~SameKind(obs.phases[j].val, obs.expect)}
+      raw == obs.phases[1].val
+      wrong == {j \in 1..Len(obs.phases) \ bad : ~SameValue(obs.phases[j].val, raw)}
+      wkind == {j \in 1..Len(obs.phases) \ bad : ~SameKind(obs.phases[j].val, raw)}
+      first(S) == CHOOSE j \in S : \A q \in S : j <= q
   IN IF obs.phases = <<>> THEN "no-phase-observed"
      \* a phase may only raise if the raw (unoptimized) form raises too (then nothing is claimed)
      ELSE IF 1 \in bad THEN "ok-raw-form-raises"
-     ELSE IF bad # {} THEN "phase-raised:" \o obs.phases[CHOOSE j \in bad : \A q \in bad : j <= q].phase
-     ELSE IF wrong # {} THEN "phase-value-differs:" \o obs.phases[CHOOSE j \in wrong : \A q \in wrong : j <= q].phase
-     ELSE IF wkind # {} THEN "phase-dtype-kind-differs:" \o obs.phases[CHOOSE j \in wkind : \A q \in wkind : j <= q].phase
+     ELSE IF wrong # {} THEN "phase-value-differs-from-raw:" \o obs.phases[first(wrong)].phase
+     ELSE IF wkind # {} THEN "phase-dtype-kind-differs-from-raw:" \o obs.phases[first(wkind)].phase
+     ELSE IF bad # {} THEN "phase-raised:" \o obs.phases[first(bad)].phase
+     \* all forms agree with each other; whether they agree with NumPy is C01's question
+     ELSE IF ~SameValue(raw, obs.expect) \/ ~SameKind(raw, obs.expect) THEN "ok-all-forms-agree-but-differ-from-the-denotation"
      ELSE "ok"
 
 \* one fired rewrite: the replaced sub-expression and its replacement denote the same array
